@@ -1038,6 +1038,11 @@ func (c *batchCommandsClient) send(forwardedHost string, grp *batchCommandsReque
 		return
 	}
 	grp.state.sentAfterSendStartNS.CompareAndSwap(0, max(time.Since(sendStartAt).Nanoseconds(), int64(1)))
+	if c.isStopped() {
+		// The recv loops may have exited before the entries above were tracked: nobody else would complete the
+		// asynchronous ones.
+		c.failAsyncRequestsOnClose()
+	}
 }
 
 // `failPendingRequests` must be called in locked contexts in order to avoid double closing channels.
